@@ -22,16 +22,19 @@ import (
 	"strconv"
 	"strings"
 	"testing"
+	"time"
 
 	"cosmossdk.io/math"
 	"github.com/cosmos/cosmos-sdk/codec"
 	sdk "github.com/cosmos/cosmos-sdk/types"
 	banktypes "github.com/cosmos/cosmos-sdk/x/bank/types"
 	govv1beta1 "github.com/cosmos/cosmos-sdk/x/gov/types/v1beta1"
+	stakingtypes "github.com/cosmos/cosmos-sdk/x/staking/types"
 	"github.com/ethereum/go-ethereum/accounts/abi"
 	"github.com/ethereum/go-ethereum/common"
 	"github.com/ethereum/go-ethereum/crypto"
 	"github.com/palomachain/paloma/v2/app"
+	keeperutil "github.com/palomachain/paloma/v2/util/keeper"
 	consensustypes "github.com/palomachain/paloma/v2/x/consensus/types"
 	"github.com/palomachain/paloma/v2/x/evm"
 	evmtypes "github.com/palomachain/paloma/v2/x/evm/types"
@@ -93,6 +96,12 @@ var worldKinds = map[string]worldKind{
 	"std":  {name: "std", powers: []int64{10, 10, 10, 10}},
 	"big":  {name: "big", powers: []int64{50, 40, 30, 30}, silent: map[int]bool{0: true}},
 	"solo": {name: "solo", powers: []int64{10}, silent: map[int]bool{0: true}},
+	// life: a validator life cycle and a long relay history. Validator 3 relays, withdraws its whole stake, is removed from staking
+	// when the (shortened) unbonding period ends - its slashing signing info and its relay history stay -, more than a thousand
+	// messages later the newest ones are attested, and validator 3 joins again
+	"life": {name: "life", powers: []int64{10, 10, 10, 10}},
+	// uneven: stakes 40/24/24/12: whom a sweep may jail depends on who was jailed before (25 % protection)
+	"uneven": {name: "uneven", powers: []int64{40, 24, 24, 12}},
 }
 
 // blockAbort is thrown when a block of the world preparation cannot be finalised (reported, never hidden).
@@ -230,6 +239,13 @@ func newWorldOf(kind worldKind, target int64) (w *world, stack string) {
 				bg.DenomMetadata = want.DenomMetadata
 			}
 			gs[banktypes.ModuleName] = cdc.MustMarshalJSON(&bg)
+			if kind.name == "life" {
+				// unbonding takes 100 s (20 blocks) instead of 21 days
+				var sg stakingtypes.GenesisState
+				cdc.MustUnmarshalJSON(gs[stakingtypes.ModuleName], &sg)
+				sg.Params.UnbondingTime = 100 * time.Second
+				gs[stakingtypes.ModuleName] = cdc.MustMarshalJSON(&sg)
+			}
 		}})
 	keepAlive = append(keepAlive, e)
 	w = &world{kind: kind, base: e, prepared: map[string]*preparedStage{}}
@@ -321,6 +337,9 @@ func newWorldOf(kind worldKind, target int64) (w *world, stack string) {
 			return nil
 		}))
 	}
+	if kind.name == "life" {
+		c.lifeCycle()
+	}
 	if len(kind.powers) >= 4 && target > 70 {
 		// the valset updates queued by the snapshot builds are relayed and attested (successfully) before the world is handed
 		// out: a pending valset update holds back the gas estimation of every logic call / deployment behind it
@@ -395,3 +414,56 @@ func (c *chain) valIdx(valoper string) int {
 }
 
 func dec(s string) math.LegacyDec { return math.LegacyMustNewDecFromStr(s) }
+
+// lifeCycle: the history of the world "life" (heights 60 .. about 190)
+func (c *chain) lifeCycle() {
+	e := c.e
+	run := func(h int64) {
+		if err := e.RunTo(h); err != nil {
+			panic(blockAbort{err})
+		}
+	}
+	round := [][]string{{"sign"}, {"estimate"}, {"sign"}, {"relayerr"}, {"attesterr"}}
+	run(60)
+	// the valset updates of the first snapshots are relayed successfully
+	for _, b := range [][]string{{"sign"}, {"estimate"}, {"sign"}, {"relayok"}, {"attestok"}} {
+		c.anyBlock(b...)
+	}
+	// jobs are relayed (and fail remotely) until validator 3 has a relay history
+	for i := 0; i < 10; i++ {
+		if h, err := e.App.MetrixKeeper.GetValidatorHistory(c.ctx(), c.val(3).ValAddr); err == nil && h != nil && len(h.Records) > 0 {
+			break
+		}
+		c.anyBlock("execjob")
+		for _, b := range round {
+			c.anyBlock(b...)
+		}
+	}
+	// validator 3 leaves: whole stake withdrawn; the next snapshot (height = 0 mod 50) is built without it, the unbonding
+	// period ends 20 blocks later and staking removes the validator
+	c.anyBlock("unbondall")
+	next := (e.Height/50 + 1) * 50
+	if next < e.Height+25 {
+		next += 50
+	}
+	run(next + 1)
+	// more than a thousand messages later (the message id counter of the consensus module is advanced by 1100: this stands
+	// for 1100 messages that were queued, handled and removed in the meantime - with them really in the queue every block
+	// takes 0.4 s) ...
+	must(e.Setup(func(ctx sdk.Context) error {
+		ider := keeperutil.NewIDGenerator(e.App.ConsensusKeeper, nil)
+		for i := 0; i < 1100; i++ {
+			ider.IncrementNextID(ctx, "consensus-queue-counter-")
+		}
+		return nil
+	}))
+	// ... new jobs are relayed and attested
+	c.anyBlock("execjob")
+	for _, b := range round {
+		c.anyBlock(b...)
+	}
+	run(e.Height + 12) // across two heights = 0 mod 10
+	// validator 3 joins again
+	c.anyBlock("rejoin")
+	run(e.Height + 12)
+}
